@@ -294,6 +294,7 @@ class UnmanagedBSE(ManagedBSE):
         if r[0][1] is None or r2[0][1] is None or r[0][1][0] != 'ok' or r2[0][1][0] != 'ok': return 'panic', 'panic'
         S = r[0][1][1]; N = r2[0][1][1]
         def val(x): return (x.signed() if x.w == 64 and x.v >> 63 else x.v) if isinstance(x, I) else (bool(x) if isinstance(x, bool) else repr(x))
+        s._raw_slots = (N.f[1], N.f[6])         # size_semaphore permits and max_size as the engine's values (possibly symbolic)
         return [val(S.f[i]) for i in range(4)], {'permits': val(N.f[0]), 'size_permits': val(N.f[1]), 'closed': val(N.f[2]), 'size': val(N.f[3]),
                                                   'available': val(N.f[4]), 'queue': val(N.f[5]), 'max_size': val(N.f[6])}
 
@@ -431,6 +432,15 @@ class UnmanagedBSE(ManagedBSE):
             inpool = [o for o, v in w.items() if v == 'pool']
             if inpool: out.append(s.vio('C12', f'a closed pool still holds {inpool}', st))
             if queued: out.append(s.vio('C12', f'{queued} still queued after close() returned', st))
+        if 'C05' in O and not st.gget('close_started') and not closed:
+            # slots are neither over- nor under-issued: whenever no call is in the middle of a step, the adds that can still succeed
+            # (free permits of the size semaphore + permits already assigned to adders that wait to be polled) are max_size - size
+            status0, snap0 = s.observe(st)
+            if status0 != 'panic' and snap0 is not None:
+                promised = [t for t in pending if t not in queued and st.threads[t].local['pending_variant'][0] == 'add']
+                sp, mx = s._raw_slots; held = s.n_responsible(st)
+                if not s.M.must(st, z(binop('Eq', binop('Add', binop('Add', sp, I(len(promised))), I(held)), mx))):
+                    out.append(s.vio('C05', f'slots are mis-issued: {snap0["size_permits"]} free slot(s) + {len(promised)} promised to waiting adders + {held} objects held is not max_size {snap0["max_size"]}', st))
         if at_rest and 'C05' in O and not st.gget('close_started'):
             status, snap = s.observe(st)
             if status == 'panic': return out
